@@ -84,6 +84,16 @@ def r09_1(prog, out):
         for f, src in (("data", "data"), ("attributes", "attributes"), ("message_id", "id"), ("message_id_dupe", "id")):
             if f in names:
                 provenance_check(prog, out, sl, "PushPayloadMessage", bid, bb, f, rv.ops[names.index(f)], (tm, src))
+        if "data" in names:
+            sd = sl.of(bid, rv.ops[names.index("data")])
+            engines = sorted(str(c) for c in sd.consts if "base64" in str(c))
+            key = "%s:PushPayloadMessage.data:encoding" % prog.short(bid)
+            if any(c.endswith("Engine::encode") for c in sd.calls) and engines:
+                if all(e.split("::")[-1] == "STANDARD" for e in engines):
+                    out.holds(key, prog.loc(bid, bb), "data bytes are carried as standard base64 (reversible at the endpoint)")
+                else:
+                    out.violation(key, prog.loc(bid, bb), "push data is encoded with %s, not the standard base64 alphabet the push contract uses: binary payloads "
+                                  "do not decode to the published bytes" % engines[0].split("::")[-1])
         for f in ("publish_time", "publish_time_dupe"):
             if f in names:
                 provenance_check(prog, out, sl, "PushPayloadMessage", bid, bb, f, rv.ops[names.index(f)], (tm, "published_at"), note_only=True)
